@@ -174,8 +174,9 @@ func tryParseGroup(node *yaml.Node, offsetLine, offsetColumn int, contentLines [
 				g.Interval = time.Duration(interval)
 			}
 		case "limit":
-			if limit, err := strconv.Atoi(nodeValue(e.val)); err == nil {
-				g.Limit = limit
+			// Same integer syntax as the strict parser: YAML integers can be written as 0x40 or 1_000.
+			if limit, err := strconv.ParseInt(nodeValue(e.val), 0, strconv.IntSize); err == nil {
+				g.Limit = int(limit)
 			}
 		case "query_offset":
 			if queryOffset, err := model.ParseDuration(nodeValue(e.val)); err == nil {
